@@ -134,6 +134,33 @@ def keyLt (a b : Item) : Bool :=
 
 def itemLe (a b : Item) : Bool := keyLt a b || (!keyLt b a && a.rank ≤ b.rank)
 
+/-! ### Run: which metric meta a row is sampled with -/
+
+/-- the meta a row carries itself (`Item.MetricMeta`), with the namespace/group table weights looked up for it -/
+structure Carried where
+  metricID : Int
+  ns : Int
+  grp : Int
+  wNsTab : Int
+  wGrpTab : Int
+  wMetric : Int
+  noSample : Bool
+  fki : List Int
+  deriving DecidableEq, Repr
+
+/-- `if Item.MetricMeta != nil && MetricID == Item.MetricMeta.MetricID { metric = Item.MetricMeta } else { metric =
+    getMetricMeta(MetricID) }`: `it` holds what meta storage says about the metric the row is ACCOUNTED to
+    (`SamplingMultiItemPair.MetricID`); the carried meta replaces it only if it is the meta of that very metric — a row
+    that belongs to another metric (an ingestion status accounted to a user metric) is sampled with the accounting metric's
+    namespace, group, weight, NoSampleAgent flag and fair keys. -/
+def resolveMeta (it : Item) (c : Option Carried) : Item :=
+  match c with
+  | some c =>
+    if c.metricID = it.metric then
+      { it with ns := c.ns, grp := c.grp, wNsTab := c.wNsTab, wGrpTab := c.wGrpTab, wMetric := c.wMetric, noSample := c.noSample, fki := c.fki }
+    else it
+  | none => it
+
 /-! ### partitions -/
 
 /-- maximal contiguous runs of rows with equal `key` (the `for j … if key s[i] != key s[j]` loops) -/
